@@ -65,6 +65,24 @@ class Thunk(object):
 
 # ------------------------------------------------------------------ builtins
 
+MAX_INT_BITS = 1 << 15
+MAX_BYTES = 1 << 16
+
+
+def _mul(a, b):
+    # repeated squaring makes numbers whose size is exponential in the number of steps: give up
+    # (inconclusive) instead of computing them
+    if a.bit_length() + b.bit_length() > MAX_INT_BITS:
+        raise OutOfFuel()
+    return a * b
+
+
+def _append(a, b):
+    if len(a) + len(b) > MAX_BYTES:
+        raise OutOfFuel()
+    return a + b
+
+
 
 def _b_divide(a, b):
     if b == 0:
@@ -184,7 +202,7 @@ def _b_replicate(n, b):
 BUILTINS = {
     "add_integer": lambda a, b: a + b,
     "subtract_integer": lambda a, b: a - b,
-    "multiply_integer": lambda a, b: a * b,
+    "multiply_integer": lambda a, b: _mul(a, b),
     "divide_integer": _b_divide,
     "mod_integer": _b_mod,
     "quotient_integer": _b_quot,
@@ -192,7 +210,7 @@ BUILTINS = {
     "equals_integer": lambda a, b: a == b,
     "less_than_integer": lambda a, b: a < b,
     "less_than_equals_integer": lambda a, b: a <= b,
-    "append_bytearray": lambda a, b: a + b,
+    "append_bytearray": lambda a, b: _append(a, b),
     "cons_bytearray": _b_cons_bytes,
     "slice_bytearray": _b_slice,
     "length_of_bytearray": lambda a: len(a),
@@ -323,7 +341,7 @@ class Interp(object):
         if op == "-":
             return a - b
         if op == "*":
-            return a * b
+            return _mul(a, b)
         if op == "/":
             if b == 0:
                 raise Abort()
